@@ -13,8 +13,9 @@ pub mod futex {
 
     /// Same signature as `rusl::futex::futex_wait`.
     #[inline]
-    pub fn futex_wait(uaddr: &AtomicU32, val: u32, _flags: FutexFlags, _timeout: Option<TimeSpec>) -> Result<(), Error> {
-        match ilv::futex_wait(uaddr.as_ptr(), val) {
+    pub fn futex_wait(uaddr: &AtomicU32, val: u32, _flags: FutexFlags, timeout: Option<TimeSpec>) -> Result<(), Error> {
+        // a wait that was given a timeout may legally end with ETIMEDOUT (explored as a deviation)
+        match ilv::futex_wait_timed(uaddr.as_ptr(), val, timeout.is_some()) {
             0 => Ok(()),
             neg => Err(mk_err("`FUTEX` (wait) syscall failed", -neg)),
         }
